@@ -130,6 +130,14 @@ func Exec(db *clover.DB, op *cs.Op) *cs.Outcome {
 	return Guard(func(out *cs.Outcome) { exec(db, op, out) })
 }
 
+// ExecDirect performs the operation on the calling goroutine, without recover and
+// deadline (crash worker: the thread is pinned for syscall-level fault injection).
+func ExecDirect(db *clover.DB, op *cs.Op) *cs.Outcome {
+	out := &cs.Outcome{}
+	exec(db, op, out)
+	return out
+}
+
 func exec(db *clover.DB, op *cs.Op, out *cs.Outcome) {
 	var err error
 	switch op.Kind {
